@@ -4,6 +4,7 @@ import (
 	"fmt"
 	"go/token"
 	"go/types"
+	"os"
 	"slices"
 	"strings"
 	"sync"
@@ -162,6 +163,8 @@ func (e *Engine) runtimeErrorT() types.Type {
 
 // ---- instruction interpreter ----
 
+var traceFn = os.Getenv("VERIF_TRACE_FN")
+
 type continuation int
 
 const (
@@ -207,6 +210,15 @@ func (in *Interp) visitInstr(fr *frame, instr ssa.Instruction) continuation {
 	in.steps++
 	if in.steps > in.cfg.MaxSteps {
 		panic(pathAbort{"step-limit"})
+	}
+	if traceFn != "" && fr.fn.Name() == traceFn {
+		defer func() {
+			if v, ok := instr.(ssa.Value); ok {
+				fmt.Fprintf(os.Stderr, "TRACE %s = %s  => %#v\n", v.Name(), instr.String(), fr.get(v))
+			} else {
+				fmt.Fprintf(os.Stderr, "TRACE %s\n", instr.String())
+			}
+		}()
 	}
 	switch instr := instr.(type) {
 	case *ssa.DebugRef:
@@ -524,6 +536,9 @@ func (in *Interp) runFrame(fr *frame) {
 		case pathAbort, engineError:
 			panic(r)
 		case targetPanic:
+			if os.Getenv("VERIF_PANIC_TRACE") != "" && !fr.panicking {
+				fmt.Fprintf(os.Stderr, "target panic in %s (block %d) %v\n", fr.fn.String(), fr.block.Index, in.eng.prog.Fset.Position(fr.callPos))
+			}
 		default:
 			// interpreter bug or Go runtime error inside the engine
 			panic(r)
